@@ -61,6 +61,9 @@ class C03(Prop):
             case['mode'] = rng.choice(['end-only', 'begin-only', 'both', 'same-suffix'])
             case['sseed'] = rng.randrange(1 << 30)
         elif rng.random() < 0.12:
+            # another sampling period (default unit s): one sample is no longer one default unit
+            case['period'] = rng.choice([[500, 'ms'], [2, 's'], [250, 'ms'], [4, 's']])
+        elif rng.random() < 0.12:
             from rtverif import pastmodel
             from rtverif.props.c06 import SEMS
             if not pastmodel.past_over_future(f):       # (keeps this class away from the open finding)
@@ -94,6 +97,16 @@ class C03(Prop):
             except ValueError:
                 pass
             v.info['class:unit-suffixes'] = 1
+        times = list(range(n))
+        if case.get('period'):
+            import random
+            from fractions import Fraction as Fr
+            from rtverif.props.c08 import Speller, U
+            per = case['period']
+            P = per[0] * U[per[1]]
+            text = lang.to_text(f, ivl_printer=Speller(random.Random(0), P, 's', 'default').ivl)
+            times = [float(Fr(i * P, U['s'])) for i in range(n)]
+            v.info['class:sampling-period'] = 1
         rel = rel_for(f)
         v.nontrivial = h >= 1 and n > h + 1
         v.info['class:' + ('future-free' if h == 0 and not lang.has_future(f) else
@@ -111,6 +124,8 @@ class C03(Prop):
             v.skip = 'reference undefined (domain error)'
             return v
         kind = case.get('online_kind', 'dt')
+        if case.get('period'):
+            sdx = dict(sdx, period=(case['period'][0], case['period'][1], 0.1))
         sd = dict({'text': text, 'vars': names}, **sdx)
         if case.get('modular'):
             from rtverif.props.c09 import modular_sd
@@ -130,7 +145,7 @@ class C03(Prop):
         on = []
         try:
             for i in range(n):
-                on.append(m.update(i, [(k, data[k][i]) for k in names]))
+                on.append(m.update(times[i], [(k, data[k][i]) for k in names]))
         except Exception as e:
             v.bad('update-raises:' + type(e).__name__, '%s: update #%d after pastify() raised %s: %s' % (
                 text, len(on), type(e).__name__, e), None)
@@ -142,7 +157,7 @@ class C03(Prop):
             if not ref.same(on[i], exp[i], rel):
                 # literal comparator: the real offline monitor on the prefix
                 try:
-                    off = drive.values(drive.dt_offline(text, names, data, i + 1, sd=sdx))[i - h]
+                    off = drive.values(drive.dt_offline(text, names, data, i + 1, times=times[:i + 1], sd=sdx))[i - h]
                 except Exception as e:
                     off = 'raised %s' % type(e).__name__
                 if isinstance(off, float) and ref.same(on[i], off, rel):
@@ -154,7 +169,7 @@ class C03(Prop):
                 return v
         if not lang.has_future(f):
             try:
-                plain = drive.dt_online(text, names, data, n, kind=kind, sd=sdx)
+                plain = drive.dt_online(text, names, data, n, times=times, kind=kind, sd=sdx)
             except Exception as e:
                 return v
             for i in range(n):
